@@ -13,7 +13,12 @@ CONSTANTS Algs, Muts, Fixed
 \* pack.py, future.backports in sigver.py as pinned) and RFC 3986 quoting differ on exactly these classes
 RelayClasses == {"none", "amp", "space", "tilde", "unreserved", "unicode"}
 Scn == [alg : Algs, typ : {"SAMLRequest", "SAMLResponse"}, relay : RelayClasses,
-        mut : Muts, cert : {"own", "other"}]
+        mut : Muts,
+        \* the certificate handed to the verifier: the signer's, another entity's, another entity's that has expired;
+        \* backend: whose crypto object runs the check -- another entity's, or (co-hosted entities, the library's own
+        \* tests) the signer's, which holds the signing key
+        cert : {"own", "other", "other_expired"}, backend : {"other", "signer"}]
+WellFormed(s) == s.backend = "signer" => s.mut \in {"none", "msg_changed"} /\ s.relay \in {"none", "amp"}
 
 \* how an encoder spells a character class (abstractly: two spellings are equal iff the same token)
 Spell(enc, class) == CASE class = "tilde" -> IF enc = "form_backport" THEN "pct" ELSE "literal"
@@ -42,7 +47,7 @@ SameString(s) == /\ RebuildSame(s)
                     \/ (s.mut = "relay_removed" /\ ~HasRelay(s)) \/ (s.mut = "relay_changed" /\ ~HasRelay(s))
 SigIntact(s)  == s.mut # "sig_changed" /\ s.mut # "sig_other_message"
 
-Init == scn \in Scn /\ pc = "get_signer" /\ verdict = "none"
+Init == scn \in {s \in Scn : WellFormed(s)} /\ pc = "get_signer" /\ verdict = "none"
 
 Done(v) == /\ pc' = "done" /\ verdict' = v /\ UNCHANGED scn
            /\ PrintT(<<"CASE", ToJson([scn |-> scn, model |-> v,
@@ -68,7 +73,7 @@ Spec == Init /\ [][Next]_vars
 \* unsupported or missing algorithm never verifies
 Contract == pc = "done" =>
     /\ (scn.mut = "none" /\ scn.cert = "own" => verdict = "true")
-    /\ (scn.cert = "other" => verdict # "true")
+    /\ (scn.cert # "own" => verdict # "true")
     /\ (scn.mut \in {"msg_changed", "relay_changed", "relay_removed", "relay_added", "sigalg_changed",
                      "sigalg_removed", "sigalg_unsupported", "sig_changed", "sig_other_message", "typ_swapped",
                      "msg_removed"} /\ ~SameString(scn) => verdict # "true")
